@@ -332,6 +332,8 @@ class Delete:
             if not self.ignore_missing:
                 raise
         else:
+            # the last step's argument is evaluated like the arguments of the steps before it
+            arg = arg_val(target, arg, scope)
             _apply_for_each(lambda dest: self._del_one(dest, op, arg, scope), path, dest)
 
         return target
